@@ -178,6 +178,42 @@ def one(sh, case, driver='generated'):
     sh.case_done(case, res is not None and delta > 0, sample=sample)
 
 
+def group_case(sh, case, driver='group'):
+    """BycycleGroup.recompute_edges: the monitor on recompute_edges fires for every model."""
+    from bycycle import BycycleGroup
+    sigs = np.asarray(case['sigs'])
+    vs = []
+    before = attach.COUNTS['eval:recompute_edges']
+    try:
+        with quiet():
+            bg = BycycleGroup(thresholds=copy.deepcopy(case['thr']))
+            bg.fit(np.array(sigs, copy=True), case['fs'], tuple(case['f_range']), axis=0, n_jobs=1)
+            old = [m.df_features['is_burst'].to_numpy().astype(bool).copy() for m in bg.models]
+            bg.recompute_edges(case['reduction'])
+    except ValueError:
+        sh.note('group_reduced_threshold_rejected')
+        attach.take_violations()
+        sh.case_done(case, False)
+        return
+    except Exception as e:
+        vs.append({'mechanism': attach.exc_mechanism(e), 'message': 'BycycleGroup.recompute_edges raised %r' % (e,)})
+    vs += [v for v in attach.take_violations() if v['property'] in (PROP, '_monitor')]
+    if not vs:
+        if attach.COUNTS['eval:recompute_edges'] - before != len(sigs):
+            vs.append({'mechanism': 'group-models-not-all-recomputed',
+                       'message': '%d rows, %d edge recomputations observed' % (len(sigs), attach.COUNTS['eval:recompute_edges'] - before)})
+        elif case['reduction'] in (None, 0, 0.0):
+            for i, m in enumerate(bg.models):
+                new = m.df_features['is_burst'].to_numpy().astype(bool)
+                if np.any(old[i] & ~new):
+                    vs.append({'mechanism': 'burst-cycle-lost', 'message': 'group model %d lost a burst cycle with unchanged thresholds' % i})
+                    break
+    for v in vs:
+        sh.violate(case, v, driver)
+    sh.note('group_recompute_runs')
+    sh.case_done(case, True, sample={'group_rows': len(sigs), 'thr': case['thr'], 'reduction': case['reduction']})
+
+
 def run(sh):
     rng = gen.rng_for(sh.seed, PROP, sh.shard)
     K = 30 if sh.tier == 'quick' else 1500
@@ -191,6 +227,9 @@ def run(sh):
         case = {'sig': sig, 'fs': fs, 'f_range': (lo, hi), 'center': str(rng.choice(['peak', 'trough'])), 'thr': thr,
                 'reduction': float(rng.choice([0, 0, .05, .1, .2])), 'api': 'func' if rng.random() < 0.75 else 'obj', 'family': fam}
         one(sh, case)
+        if it % 10 == 0:
+            rows = [gen.gen_signal(rng, fs, lo, hi, 3.0, 'bursty')[0][:int(3 * fs) - 2] for _ in range(3)]
+            group_case(sh, {'sigs': np.array(rows), 'fs': fs, 'f_range': (lo, hi), 'thr': thr, 'reduction': case['reduction']})
     for k, v in attach.COUNTS.items():
         if k.startswith('C16:'):
             sh.classes[k[4:]] = v
@@ -207,4 +246,7 @@ def run(sh):      # noqa: F811 - thorough tier: the repository's own tests are o
 
 
 def replay(sh, driver, case):
-    one(sh, case, driver)
+    if driver == 'group':
+        group_case(sh, case, driver)
+    else:
+        one(sh, case, driver)
